@@ -76,6 +76,11 @@ CHECKS["C16"] = dict(
    text="60k (quick) / 1.5M (thorough) histories of up to 40 calls per container kind (Table, InlineTable, dyn TableLike over both, Array, ArrayOfTables, toml::Map in the sorted and the preserve_order build): every return value and the full observable state (len, is_empty, iter, lookups, get_values, printed text) must equal the reference after every call.",
    note="return values of calls made on a placeholder slot are left open by the property and not compared (counted); toml::Map under preserve_order runs in a second build of the harness",
    design="4/C16")
+CHECKS["C08"] = dict(
+   technique="stateful model-based testing: generated edit histories on a generated document, interpreted against a plain ordered tree plus a set of untouched source fragments; oracles after every edit; histories shrink as one value",
+   text="30k (quick) / 600k (thorough) histories of 1-25 structural edits (21 kinds over tables, inline tables, arrays, arrays of tables) on documents whose every line carries a unique marker: after every edit the printed text must parse, decode to the model with the same edit applied (values before sections, hidden empties), the structure must read back as the model, and every untouched `key = value # marker` source fragment must still be present verbatim. A probe run exercises known finding F18.",
+   note="orders the specification/API leave open are compared as sets and listed in DESIGN.md (children of a parent with a header-less table, sections after sort_values, parent of an array of tables that lost its first element); main run excludes F18's trigger by construction",
+   design="4/C08")
 NOT_YET = {}
 
 def main():
